@@ -950,3 +950,261 @@ Proof.
   destruct (hosts_step r) as [l|e]; [left|right; eauto].
   apply (list_eqb_eq str_eqb str_eqb_eq) in H. subst. reflexivity.
 Qed.
+
+(* ------------------------------------------------------------------ *)
+(* growth round 5 *)
+
+(* fastrand.Uint32n with every Go conversion and wrap written out is the plain quotient *)
+Lemma uint32n_go_eq x n : 0 <= x < two32 -> 0 <= n < two32 ->
+  uint32n_go x n = uint32n x n.
+Proof.
+  intros Hx Hn. unfold uint32n_go, uint32n.
+  rewrite (Z.mod_small x two32), (Z.mod_small n two32) by lia.
+  assert (P : 0 <= x * n < two64) by (unfold two32, two64 in *; nia).
+  rewrite (Z.mod_small (x * n) two64) by exact P.
+  apply Z.mod_small. split.
+  - apply Z.div_pos; [lia|reflexivity].
+  - apply Z.div_lt_upper_bound; [reflexivity|]. unfold two32, two64 in *. nia.
+Qed.
+
+Lemma uint32n_go_range x n : 0 <= x < two32 -> 0 < n < two32 ->
+  0 <= uint32n_go x n < n.
+Proof. intros Hx Hn. rewrite uint32n_go_eq by lia. apply uint32n_range; lia. Qed.
+
+(* ---- any history: the counter counts the successful lookups; runs compose ---- *)
+Lemma rr_run_app : forall a b c,
+  rr_run c (a ++ b) = (fst (rr_run (fst (rr_run c a)) b),
+                       (snd (rr_run c a) ++ snd (rr_run (fst (rr_run c a)) b))%list).
+Proof.
+  induction a as [|r a IH]; intros b c.
+  - simpl. destruct (rr_run c b); reflexivity.
+  - cbn [app rr_run]. destruct (rr_step c r) as [c1 o]. rewrite IH.
+    destruct (rr_run c1 a) as [c2 os]. cbn [fst snd].
+    destruct (rr_run c2 b) as [c3 os']. reflexivity.
+Qed.
+
+Lemma rr_counter : forall rs c, 0 <= c < two64 ->
+  fst (rr_run c rs) = (c + Z.of_nat (succ_count rs)) mod two64.
+Proof.
+  induction rs as [|r rs IH]; intros c Hc.
+  - simpl. rewrite Z.add_0_r, Z.mod_small by lia. reflexivity.
+  - cbn [rr_run]. rewrite rr_step_spec. unfold succ_count. cbn [filter]. unfold succeeds at 1.
+    destruct (hosts_step r) as [hs|e].
+    + specialize (IH ((c + 1) mod two64) ltac:(apply Z.mod_pos_bound; reflexivity)).
+      destruct (rr_run ((c + 1) mod two64) rs) as [c2 os]. cbn [fst] in *.
+      rewrite IH, Zplus_mod_idemp_l. f_equal. unfold succ_count. cbn [List.length]. lia.
+    + specialize (IH c Hc). destruct (rr_run c rs) as [c2 os]. cbn [fst] in *. exact IH.
+Qed.
+
+Lemma succ_count_app a b : succ_count (a ++ b) = (succ_count a + succ_count b)%nat.
+Proof. unfold succ_count. rewrite filter_app, app_length. reflexivity. Qed.
+
+(* the windows between changes: whatever the subscriber reported before (pre) and reports
+   afterwards (post), the selections made during a stretch of calls in which every
+   successful lookup reports hs are fair over every window *)
+Lemma rr_dynamic_window hs pre blk post c0 :
+  NoDup hs -> hs <> [] -> 0 <= c0 < two64 -> Stable hs blk ->
+  c0 + Z.of_nat (succ_count (pre ++ blk)) <= two64 ->
+  exists o_pre o_blk o_post,
+    snd (rr_run c0 (pre ++ blk ++ post)) = (o_pre ++ o_blk ++ o_post)%list /\
+    List.length o_pre = List.length pre /\ List.length o_blk = List.length blk /\
+    RRFair hs (oks o_blk) /\ rr_seq_b hs (oks o_blk) = true.
+Proof.
+  intros ND Hne Hc St Hw.
+  assert (Dec : snd (rr_run c0 (pre ++ blk ++ post))
+                = (snd (rr_run c0 pre) ++ snd (rr_run (fst (rr_run c0 pre)) blk)
+                   ++ snd (rr_run (fst (rr_run (fst (rr_run c0 pre)) blk)) post))%list).
+  { rewrite rr_run_app. cbn [snd]. f_equal. rewrite rr_run_app. reflexivity. }
+  set (c1 := fst (rr_run c0 pre)) in *.
+  set (c2 := fst (rr_run c1 blk)) in *.
+  exists (snd (rr_run c0 pre)), (snd (rr_run c1 blk)), (snd (rr_run c2 post)).
+  assert (Len : forall rs c, List.length (snd (rr_run c rs)) = List.length rs).
+  { induction rs as [|r rs IH]; intros c; [reflexivity|]. cbn [rr_run].
+    destruct (rr_step c r) as [c' o]. specialize (IH c'). destruct (rr_run c' rs). simpl in *. congruence. }
+  split; [|split; [apply Len|split; [apply Len|]]].
+  - exact Dec.
+  - assert (B1 : 0 <= c1 < two64).
+    { unfold c1. rewrite rr_counter by exact Hc. apply Z.mod_pos_bound. reflexivity. }
+    assert (E1 : c1 <= c0 + Z.of_nat (succ_count pre)).
+    { unfold c1. rewrite rr_counter by exact Hc. apply Z.mod_le; [lia|reflexivity]. }
+    apply rr_stable_fair; try assumption.
+    rewrite succ_count_app in Hw. lia.
+Qed.
+
+(* ---- constructors ---- *)
+Lemma map_const_repeat {A B} (b : B) (l : list A) : map (fun _ => b) l = repeat b (List.length l).
+Proof. induction l as [|x l IH]; simpl; [reflexivity|]. rewrite IH. reflexivity. Qed.
+
+(* the single-host balancer is only ever built for a fixed subscriber with exactly that host *)
+Lemma build_nop k procs s x h : build k procs s x = BNop h -> s = SFixed [h].
+Proof.
+  destruct k; unfold build, new_balancer; [destruct (procs =? 1)| |];
+    unfold new_rr, new_random; destruct s as [[|a [|b t]]|]; intros H; try discriminate;
+    inversion H; reflexivity.
+Qed.
+
+(* the counter of a round robin balancer built by the constructor starts inside the list
+   (or at 0): the hypothesis "c0 + M <= 2^64" of the balance theorem becomes a bound on M *)
+Lemma new_rr_start s x c0 : 0 <= x < two32 -> new_rr s x = BRR c0 ->
+  match s with SFixed hs => Z.of_nat (List.length hs) <= two32 | SOther => True end ->
+  0 <= c0 < two32.
+Proof.
+  intros Hx. destruct s as [[|a [|b t]]|]; cbn [new_rr]; intros H L;
+    try (injection H as <-; unfold two32; lia); try discriminate.
+  assert (E : c0 = uint32n x (Z.of_nat (List.length (a :: b :: t)))) by congruence.
+  rewrite E. clear H E.
+  pose proof (uint32n_range x (Z.of_nat (List.length (a :: b :: t))) Hx ltac:(simpl; lia)). lia.
+Qed.
+
+Lemma in_firstn' {A} n (l : list A) x : In x (firstn n l) -> In x l.
+Proof. intros H. rewrite <- (firstn_skipn n l). apply in_or_app. left. exact H. Qed.
+Lemma in_skipn' {A} n (l : list A) x : In x (skipn n l) -> In x l.
+Proof. intros H. rewrite <- (firstn_skipn n l). apply in_or_app. right. exact H. Qed.
+
+Lemma fair_all_same h w : (forall p, In p w -> p = h) -> Fair [h] w.
+Proof.
+  intros H x Hx. destruct Hx as [Hx|[]]. subst x.
+  assert (E : zcount h w = Z.of_nat (List.length w)).
+  { unfold zcount. f_equal. induction w as [|p w IH]; [reflexivity|].
+    simpl. rewrite (H p (or_introl eq_refl)), str_eqb_refl.
+    rewrite IH by (intros q Hq; apply H; right; exact Hq). reflexivity. }
+  rewrite E. cbn [List.length]. change (Z.of_nat 1) with 1.
+  rewrite Z.div_1_r. replace (Z.of_nat (List.length w) + 1 - 1) with (Z.of_nat (List.length w)) by lia.
+  rewrite Z.div_1_r. lia.
+Qed.
+
+(* a round robin balancer as the public constructor builds it over a fixed list of distinct
+   hosts (any draw of the start position): every window of its first M selections is fair,
+   for every M up to 2^64 - 2^32 *)
+Lemma constructed_rr_fair hs x (xs : list Z) : NoDup hs -> hs <> [] -> 0 <= x < two32 ->
+  Z.of_nat (List.length hs) <= two32 -> Z.of_nat (List.length xs) + two32 <= two64 ->
+  RRFair hs (oks (bal_run (new_rr (SFixed hs) x) hs xs)).
+Proof.
+  intros ND Hne Hx Hl HM.
+  destruct (new_rr (SFixed hs) x) as [h|c0|] eqn:E.
+  - pose proof (build_nop CRoundRobin 0 (SFixed hs) x h E) as S. inversion S. subst hs.
+    intros a m Ham. apply fair_all_same. intros p Hp.
+    unfold window in Hp. apply in_firstn' in Hp. apply in_skipn' in Hp.
+    unfold bal_run, oks in Hp. apply in_flat_map in Hp. destruct Hp as [o [Ho Hp]].
+    apply in_map_iff in Ho. destruct Ho as [_ [Eo _]]. subst o. destruct Hp as [Hp|[]]. auto.
+  - pose proof (new_rr_start (SFixed hs) x c0 Hx E Hl) as B.
+    unfold bal_run. rewrite map_const_repeat.
+    apply rr_seq_sound; try assumption.
+    apply rr_model_seq_oracle; try assumption; unfold two32, two64 in *; lia.
+  - unfold new_rr in E. destruct hs as [|a [|b t]]; discriminate.
+Qed.
+
+(* whatever constructor built it (generic / round robin / random, any processor count, any
+   draw), a balancer over a fixed subscriber only ever answers hosts of that list *)
+Lemma constructed_membership k procs hs x xs : hs <> [] ->
+  (forall y, In y xs -> 0 <= y < two32) ->
+  Forall (CallOk {| rp_hosts := hs; rp_err := None |}) (bal_run (build k procs (SFixed hs) x) hs xs).
+Proof.
+  intros Hne Hxs. destruct (build k procs (SFixed hs) x) as [h|c0|] eqn:E.
+  - apply build_nop in E. inversion E. subst hs. unfold bal_run. apply Forall_forall.
+    intros o Ho. apply in_map_iff in Ho. destruct Ho as [_ [Eo _]]. subst o.
+    unfold CallOk. simpl. exists h. split; [reflexivity|left; reflexivity].
+  - unfold bal_run. rewrite map_const_repeat.
+    pose proof (rr_run_ok (repeat {| rp_hosts := hs; rp_err := None |} (List.length xs)) c0) as F.
+    revert F. generalize (snd (rr_run c0 (repeat {| rp_hosts := hs; rp_err := None |} (List.length xs)))).
+    induction (List.length xs) as [|m IH]; intros l F; inversion F; subst; constructor; auto.
+  - unfold bal_run. apply Forall_forall. intros o Ho. apply in_map_iff in Ho.
+    destruct Ho as [y [Eo Hy]]. subst o. apply rnd_step_ok. apply Hxs, Hy.
+Qed.
+
+(* the round robin constructors do not look at the processor count and never build the
+   random balancer; NewBalancer builds round robin exactly when GOMAXPROCS = 1 *)
+Lemma rr_constructors_fixed_kind procs s x :
+  build CRoundRobin procs s x = new_rr s x /\ new_rr s x <> BRandom /\
+  (procs = 1 -> build CGeneric procs s x = new_rr s x) /\
+  (procs <> 1 -> build CGeneric procs s x = new_random s).
+Proof.
+  split; [reflexivity|]. split.
+  - unfold new_rr. destruct s as [[|a [|b t]]|]; discriminate.
+  - unfold build, new_balancer. split; intros H.
+    + subst. reflexivity.
+    + destruct (Z.eqb_spec procs 1); [contradiction|reflexivity].
+Qed.
+
+(* the middleware: errors of the balancer come out unchanged and the next proxy sees
+   host ++ path for a host of the reported list *)
+Lemma mw_step_ok r o path : CallOk r o ->
+  match mw_step o path with
+  | MwNext u => exists h, u = (h ++ path)%string /\ In h (rp_hosts r) /\ rp_err r = None
+  | MwErr e => o = Err e /\ (rp_err r <> None \/ rp_hosts r = [])
+  | MwPanic => False
+  end.
+Proof.
+  unfold CallOk. destruct (rp_err r) as [e|] eqn:Er.
+  - intros H. subst o. simpl. split; [reflexivity|left; discriminate].
+  - destruct (rp_hosts r) as [|h0 t] eqn:Eh.
+    + intros H. subst o. simpl. split; [reflexivity|right; reflexivity].
+    + intros [h [E I]]. subst o. simpl. exists h. auto.
+Qed.
+
+(* ------------------------------------------------------------------ *)
+(* the model's run over ANY history satisfies the block oracle of the dynamic cases *)
+
+(* acc holds the picks of the k tickets before counter value c, over the list of the block *)
+Definition block_inv (cur : option (list string)) (acc : list string) (c : Z) : Prop :=
+  match cur with
+  | None => True
+  | Some hs => hs <> [] /\ exists k, Z.of_nat k <= c /\
+                 acc = oks (picks_of hs (tickets (c - Z.of_nat k) k))
+  end.
+
+Lemma close_of_inv cur acc c : 0 <= c <= two64 -> block_inv cur acc c -> close_b cur acc = true.
+Proof.
+  intros Hc. destruct cur as [hs|]; [|reflexivity]. intros [Hne [k [Hk E]]].
+  unfold close_b. destruct (nodup_str hs) eqn:ND; [|reflexivity]. simpl.
+  apply nodup_str_NoDup in ND. subst acc.
+  rewrite tickets_nowrap by lia. apply rr_model_seq_oracle_gen; assumption.
+Qed.
+
+Lemma blocks_model : forall rs c cur acc, 0 <= c -> c + Z.of_nat (List.length rs) < two64 ->
+  block_inv cur acc c ->
+  blocks_b cur acc (combine rs (snd (rr_run c rs))) = true.
+Proof.
+  induction rs as [|r rs IH]; intros c cur acc Hc Hw Inv.
+  - simpl. apply (close_of_inv cur acc c); [simpl in Hw; lia|exact Inv].
+  - cbn [rr_run]. rewrite rr_step_spec. cbn [List.length] in Hw.
+    destruct (hosts_step r) as [l|e] eqn:E.
+    + assert (Lne : l <> []) by (apply (hosts_step_inl _ _ E)).
+      pose proof (len_pos l Lne) as Lp.
+      assert (C1 : (c + 1) mod two64 = c + 1) by (apply Z.mod_small; lia).
+      rewrite C1.
+      destruct (rr_run (c + 1) rs) as [c2 os] eqn:R. cbn [snd combine blocks_b]. rewrite E.
+      rewrite pick_nth by (apply Z.mod_pos_bound; exact Lp). cbn [pick_of].
+      assert (New : block_inv (Some l) [nth (Z.to_nat (c mod Z.of_nat (List.length l))) l ""] (c + 1)).
+      { split; [exact Lne|]. exists 1%nat. split; [lia|].
+        replace (c + 1 - Z.of_nat 1) with c by lia.
+        unfold tickets. cbn [seq map picks_of]. change (Z.of_nat 0) with 0.
+        rewrite Z.add_0_r, (Z.mod_small c two64) by lia.
+        rewrite pick_nth by (apply Z.mod_pos_bound; exact Lp). reflexivity. }
+      assert (Rest : forall cur' acc', block_inv cur' acc' (c + 1) ->
+                blocks_b cur' acc' (combine rs os) = true).
+      { intros cur' acc' I. specialize (IH (c + 1) cur' acc' ltac:(lia) ltac:(lia) I).
+        rewrite R in IH. exact IH. }
+      destruct cur as [hs|].
+      * destruct (list_eqb str_eqb l hs) eqn:Q.
+        -- apply (list_eqb_eq str_eqb str_eqb_eq) in Q. subst l.
+           apply Rest. destruct Inv as [Hne [k [Hk Ea]]]. split; [exact Hne|].
+           exists (S k). split; [lia|].
+           replace (c + 1 - Z.of_nat (S k)) with (c - Z.of_nat k) by lia.
+           rewrite tickets_S. unfold picks_of. rewrite map_app. unfold oks. rewrite flat_map_app.
+           fold (oks (map (fun t => pick hs (t mod Z.of_nat (List.length hs))) (tickets (c - Z.of_nat k) k))).
+           fold (picks_of hs (tickets (c - Z.of_nat k) k)). rewrite <- Ea. f_equal.
+           cbn [map flat_map].
+           replace (c - Z.of_nat k + Z.of_nat k) with c by lia.
+           rewrite (Z.mod_small c two64) by lia.
+           rewrite pick_nth by (apply Z.mod_pos_bound; exact Lp). reflexivity.
+        -- apply andb_true_iff. split; [apply (close_of_inv _ _ c); [lia|exact Inv]|].
+           apply Rest. exact New.
+      * apply Rest. exact New.
+    + destruct (rr_run c rs) as [c2 os] eqn:R. cbn [snd combine blocks_b]. rewrite E.
+      specialize (IH c cur acc Hc ltac:(lia) Inv). rewrite R in IH. exact IH.
+Qed.
+
+Lemma blocks_model_meets rs c : 0 <= c -> c + Z.of_nat (List.length rs) < two64 ->
+  blocks_b None [] (combine rs (snd (rr_run c rs))) = true.
+Proof. intros Hc Hw. apply blocks_model; [exact Hc|exact Hw|exact I]. Qed.
